@@ -134,3 +134,63 @@ func VerifC17_GetResults() {
 		verif_Assert(bytes.Equal(res[i].Metadata, want[i].md), "result metadata follows the skip/substitution rules")
 	}
 }
+
+// c17src is a source that knows exactly one record.
+type c17src struct {
+	rec *model.ProviderInfo
+}
+
+func (s *c17src) String() string { return "c17" }
+func (s *c17src) FetchAll(ctx context.Context) ([]*model.ProviderInfo, error) {
+	return []*model.ProviderInfo{s.rec}, nil
+}
+func (s *c17src) Fetch(ctx context.Context, pid peer.ID) (*model.ProviderInfo, error) {
+	if pid == s.rec.AddrInfo.ID {
+		return s.rec, nil
+	}
+	return nil, nil
+}
+
+// C17 (for any record, however it entered the cache): the same record gives the
+// same expansion whether it was cached by a refresh, by a lookup miss, or by a
+// lookup miss followed by a refresh that sees a newer version of it.
+func VerifC17_ExpansionWhateverTheEntryPath() {
+	pid := peer.ID("M")
+	x1, x2 := peer.AddrInfo{ID: "X"}, peer.AddrInfo{ID: "Y"}
+	rec := &model.ProviderInfo{AddrInfo: peer.AddrInfo{ID: pid}, LastAdvertisementTime: c06time(1)}
+	xp := &model.ExtendedProviders{Providers: []peer.AddrInfo{x1}, Metadatas: [][]byte{c17md("chainMetadata")}}
+	xp.Contextual = []model.ContextualExtendedProviders{{
+		ContextID: verif_Str("setContextID", 1), Override: verif_Bool("override"),
+		Providers: []peer.AddrInfo{x2, {ID: pid}}, Metadatas: [][]byte{c17md("ctxMetadata"), c17md("ctxMainMetadata")},
+	}}
+	rec.ExtendedProviders = xp
+	ctxID := verif_Bytes("lookupContextID", 1)
+	md := verif_Bytes("lookupMetadata", 1)
+
+	src := &c17src{rec: rec}
+	pc := &ProviderCache{sources: []ProviderSource{src}, write: make(map[peer.ID]*cacheInfo), writeLock: make(chan struct{}, 1), ttl: c06ttl()}
+	verif_SetClock(0)
+	switch verif_Choose("entryPath", 0, 2) {
+	case 0:
+		verif_Assume(pc.Refresh(context.Background()) == nil)
+	case 1: // lookup miss (no preload, or the provider appeared between refreshes)
+	case 2:
+		_, gerr := pc.Get(context.Background(), pid)
+		verif_Assume(gerr == nil)
+		newer := *rec
+		newer.LastAdvertisementTime = c06time(2)
+		src.rec = &newer
+		verif_Assume(pc.Refresh(context.Background()) == nil)
+	}
+	res, err := pc.GetResults(context.Background(), pid, ctxID, md)
+	verif_Reach("expanded")
+	verif_Assert(err == nil, "lookup succeeds")
+	want := c17spec(rec, pid, ctxID, md)
+	verif_Assert(len(res) == len(want), "result count follows the expansion rules whatever path cached the record")
+	for i := range want {
+		if i < len(res) {
+			verif_Assert(res[i].Provider != nil && res[i].Provider.ID == want[i].pid && bytes.Equal(res[i].Metadata, want[i].md) && bytes.Equal(res[i].ContextID, ctxID),
+				"results follow the expansion rules whatever path cached the record")
+		}
+	}
+}
